@@ -75,34 +75,15 @@ func lexerEOFRuleSSA(r *Run, rule string) {
 		return nil, false
 	}
 	// ... and the same for the loops that sit behind a decision on the current character (the arms of the token
-	// switch): there the character is pinned to NUL only where a loop reads it, so that every arm is entered
-	loopBlocks := map[*ssa.Function]map[*ssa.BasicBlock]bool{}
-	inLoop := func(ins ssa.Instruction) bool {
-		fn := ins.Parent()
-		if fn == nil || ins.Block() == nil {
-			return false
-		}
-		lb, done := loopBlocks[fn]
-		if !done {
-			lb = map[*ssa.BasicBlock]bool{}
-			for _, b := range fn.Blocks {
-				if isLoopHeader(b) {
-					for x := range loopBodyOf(b) {
-						lb[x] = true
-					}
-				}
-			}
-			loopBlocks[fn] = lb
-		}
-		return lb[ins.Block()]
-	}
+	// switch): there the character is pinned to NUL behind the first cursor movement, so that every arm is entered
+	// (the hooks run in the walker's worker goroutines: they keep no state of their own)
 	moved := func(p *pwPath) bool {
 		reads, _ := lm.moves(p, len(p.events))
 		return reads > 0
 	}
 	armHook := func(p *pwPath, ld *ssa.UnOp) (constant.Value, bool) {
 		// the input ends behind the first character the arm steps over: from then on the cursor reads NUL
-		if lm.isFieldLoad(p, ld, lm.chIdx) && (inLoop(origInstr(ld)) || moved(p)) && moved(p) {
+		if lm.isFieldLoad(p, ld, lm.chIdx) && moved(p) {
 			return constant.MakeInt64(0), true
 		}
 		return nil, false
